@@ -14,7 +14,7 @@ package main
 //        pw       - right wrong
 //        caFile   - A AB missing empty bad        ca    - A B AB ws bad mixed
 //        flag     0 | 1      (ClientConfig.InsecureSkipVerify / ServerConfig.RequireClientCert)
-//     => ok certs=<n> root=<ids|-> cca=<ids|-> isv=<0|1> auth=<n> name=<hex> | err <class> | PANIC
+//     => ok certs=<n> root=<ids|-> cca=<ids|-> isv=<0|1> auth=<n> name=<hex> hooks=<-|list> | err <class> | PANIC
 //   startname <hex host> <hex expected host name | ->
 //     => name <hex ServerName the client config carried into the handshake>
 //   udp <client|server> <hex password | - (no userinfo) | e (empty password)>
@@ -200,8 +200,36 @@ func c05describe(conf *tls.Config) string {
 	if conf.InsecureSkipVerify {
 		isv = 1
 	}
-	return fmt.Sprintf("ok certs=%d root=%s cca=%s isv=%d auth=%d name=%s", len(conf.Certificates), root, cca, isv,
-		int(conf.ClientAuth), hexs([]byte(conf.ServerName)))
+	return fmt.Sprintf("ok certs=%d root=%s cca=%s isv=%d auth=%d name=%s hooks=%s", len(conf.Certificates), root, cca, isv,
+		int(conf.ClientAuth), hexs([]byte(conf.ServerName)), c05hooks(conf))
+}
+
+// c05hooks lists the remaining knobs of a tls.Config that alter what certificate verification
+// means ("-" = none is set): a clock of its own (Time; "Time" = set, "Time:shifted" = set and
+// more than 2 s away from time.Now), verification callbacks, a per-connection config.
+func c05hooks(conf *tls.Config) string {
+	var h []string
+	if conf.Time != nil {
+		d := time.Since(conf.Time())
+		if d < -2*time.Second || d > 2*time.Second {
+			h = append(h, "Time:shifted")
+		} else {
+			h = append(h, "Time")
+		}
+	}
+	if conf.VerifyPeerCertificate != nil {
+		h = append(h, "VerifyPeerCertificate")
+	}
+	if conf.VerifyConnection != nil {
+		h = append(h, "VerifyConnection")
+	}
+	if conf.GetConfigForClient != nil {
+		h = append(h, "GetConfigForClient")
+	}
+	if len(h) == 0 {
+		return "-"
+	}
+	return strings.Join(h, ",")
 }
 
 // recordingManager is a cert.TlsConfig whose config object the harness keeps, so that whatever
@@ -395,6 +423,9 @@ func (c tlscfgComp) Exec(op string) (string, string, string, bool) {
 	res := c05describe(conf)
 	mon := ""
 	if conf != nil {
+		if h := c05hooks(conf); h != "-" {
+			mon = "the configuration handed to crypto/tls carries " + h + ": certificate verification no longer means chain + validity now + name"
+		}
 		switch t[1] {
 		case "client":
 			if conf.InsecureSkipVerify != flag {
